@@ -23,14 +23,14 @@ enum { C_STABLE = 0, C_THREADS, C_MWMSA, C_OVERSAMPLE, C_ELEM, C_DEFAULT_THREADS
 struct Pod { int key; int idx; };
 
 void generate(Rng& r, Workload& w, int tier) {
-    int64_t threads = r.chance(1, 12) ? 16 : r.range(1, 6);
-    w.cfg = {int64_t(r.below(2)), threads, int64_t(r.below(2)), r.range(1, 4), int64_t(r.below(2)),
+    int64_t threads = r.chance(1, 12) ? 6 : r.range(0, 5);   // 0..5 -> 1..6 threads, 6 -> 16
+    w.cfg = {int64_t(r.below(2)), threads, int64_t(r.below(2)), r.range(0, 3), int64_t(r.below(2)),
              r.chance(1, 8) ? 1 : 0, 0};
     int nmax = tier ? 96 : 64;
     int n;
     uint64_t k = r.below(10);
     if (k < 2) n = int(r.range(0, 3));
-    else if (k < 4) n = int(r.range(0, threads + 1));        // n < threads and around it
+    else if (k < 4) n = int(r.range(0, (threads >= 6 ? 16 : threads + 1) + 1));        // n < threads and around it
     else n = int(r.range(0, nmax));
     int shape = int(r.below(6));
     int universe = shape == 0 ? 1 : shape == 1 ? int(r.range(2, 4)) : shape == 2 ? 1000 : int(r.range(1, 8));
@@ -50,10 +50,10 @@ template <> int keyof<sim::Tracked>(const sim::Tracked& p) { return p.k(); }
 template <class T>
 void run(const Workload& w, Result& res) {
     const bool stable = sim::modn(sim::cfg_at(w, C_STABLE), 2) == 1;
-    int64_t tv = sim::cfg_at(w, C_THREADS, 1);
-    const size_t threads = size_t(tv >= 16 ? 16 : 1 + sim::modn(tv - 1, 6));
+    int64_t tv = sim::modn(sim::cfg_at(w, C_THREADS), 7);
+    const size_t threads = size_t(tv >= 6 ? 16 : 1 + tv);
     const bool sampling = sim::modn(sim::cfg_at(w, C_MWMSA), 2) == 1;
-    const size_t oversample = size_t(1 + sim::modn(sim::cfg_at(w, C_OVERSAMPLE) - 1, 4));
+    const size_t oversample = size_t(1 + sim::modn(sim::cfg_at(w, C_OVERSAMPLE), 4));
     const bool default_threads = sim::modn(sim::cfg_at(w, C_DEFAULT_THREADS), 2) == 1;
     const bool greater = sim::modn(sim::cfg_at(w, C_ORDER), 2) == 1;
     tlx::parallel_multiway_merge_oversampling = oversample;
